@@ -50,6 +50,9 @@ func init() {
 				var spec engine.Spec
 				if mode == "users" {
 					spec = engine.Spec{Mode: "users", Concurrency: c, MaxDurationMS: 60000}
+				} else if mode == "filespan" {
+					N = uint64(c * (40 + r.IntN(20)))
+					spec = engine.FileSpanSpec(c, N)
 				} else {
 					spec = engine.RateSpec(mode, c, 5, c)
 				}
@@ -90,6 +93,14 @@ func init() {
 			}
 			for k := 0; k < nb; k++ {
 				add("users", all, true, "all")
+			}
+			// iterations that outlive a config-file stage: the next stage's pool starts while they run
+			nsp := 6
+			if tier == "thorough" {
+				nsp = 40
+			}
+			for k := 0; k < nsp; k++ {
+				add("filespan", all, false, "all")
 			}
 			return cs
 		},
@@ -176,6 +187,18 @@ func c07Run(c *core.Case, o *core.Outcome) {
 					return
 				}
 			}
+			if p.Spec.Mode == "file" {
+				// non-stopping failures are marked first and the body then outlives its stage, so the
+				// mark has to survive whatever the next stage's pool does; stopping ones come last
+				if engine.Stops(kind) {
+					engine.SpanSleep(id)
+					engine.Behave(t, kind)
+				} else {
+					engine.Behave(t, kind)
+					engine.SpanSleep(id)
+				}
+				return
+			}
 			engine.Behave(t, kind)
 		}
 	}
@@ -188,6 +211,10 @@ func c07Run(c *core.Case, o *core.Outcome) {
 	o.Events = int64(S) + int64(l.Len())
 	if p.Barrier && bar.stalled {
 		o.Violate("survival:"+p.Desc, "a barrier round of %d workers did not fill within 10 s after %d complete rounds: a worker stopped taking work after a fault (%d distinct handles seen) (%s)", bar.parties, bar.rounds, k.Handles(), p.Desc)
+		return
+	}
+	if pr := k.Problems(); len(pr) > 0 {
+		o.Violate("confinement:"+p.Desc, "%s (%s)", joinProblems(pr), p.Desc)
 		return
 	}
 	if S != p.Spec.MaxIterations {
